@@ -233,6 +233,26 @@ def main():
         return exit_code
     except Exception as e:      # noqa
         traceback.print_exc()
+        # An exception that comes out of pyham's own code at a place where the harness expects none (every such call returns on
+        # the unchanged tree) is a behavioural difference, not an infrastructure problem: the correspondence no longer checks.
+        try:
+            import observe
+            repo = os.path.realpath(observe.REPO)
+            frames = traceback.extract_tb(e.__traceback__)
+            inside = [fr for fr in frames if os.path.realpath(fr.filename).startswith(repo + os.sep)]
+            if inside:
+                import core
+                prop = a.prop.upper()
+                path = core.write_replay(prop, seed, 'exception', dict(
+                    kind='no-failing-input-found',
+                    broken=['correspondence %s: pyham raised %s: %s at %s:%d (%s) where the unchanged implementation returns' % (
+                        prop, type(e).__name__, e, os.path.relpath(inside[-1].filename, repo), inside[-1].lineno, inside[-1].name)],
+                    traceback=traceback.format_exc()[-4000:],
+                    note='the check stopped at this call; the property is no longer shown to hold'))
+                print('VIOLATION property=%s replay=%s no-failing-input-found' % (prop, path))
+                return 1
+        except Exception:      # noqa
+            pass
         print('INFRA: %s' % e)
         return 2
 
